@@ -78,6 +78,10 @@ struct PairsRun {
         for (size_t i = 0; i < np; i++) if (p_pr[p0 + i] < 0) { np = i; break; }
         GTv out; env.lib_calls++;
         R.jv_pairing_sum(view, out.b, na ? arec.p + a0 * R.jv_pair_size(view, 0) : nullptr, na, np ? prec.p + p0 * R.jv_pair_size(view, 1) : nullptr, np);
+        // the two input members of every record still point where the caller pointed them (a routine that re-orders or marks the caller's records
+        // keeps state between calls in them)
+        for (size_t i = 0; i < na; i++) { const void *pg1, *pg2; R.jv_pair_get(view, arec.p, a0 + i, 0, &pg1, &pg2); if (pg1 != (const void*) g1[(size_t) a_g1[a0 + i]].p || pg2 != (const void*) g2[(size_t) a_g2[a0 + i]].p) env.fail(env.focus == "C20" ? "C20" : "C08", "records:inputs-left-as-the-caller-set-them", strf("after a product over %zu affine and %zu prepared pairs, affine record %zu no longer points at the elements the caller put there", na, np, a0 + i)); }
+        for (size_t i = 0; i < np; i++) { const void *pg1, *pg2; R.jv_pair_get(view, prec.p, p0 + i, 1, &pg1, &pg2); if (pg1 != (const void*) g1[(size_t) p_g1[p0 + i]].p || pg2 != (const void*) prep[(size_t) p_pr[p0 + i]]) env.fail(env.focus == "C20" ? "C20" : "C08", "records:inputs-left-as-the-caller-set-them", strf("after a product over %zu affine and %zu prepared pairs, prepared record %zu no longer points at the elements the caller put there", na, np, p0 + i)); }
         GTv want = w.gtone(); int idents = 0; std::string shape;
         for (size_t i = 0; i < na; i++) { void* P = g1[(size_t) a_g1[a0 + i]]; void* Q = g2[(size_t) a_g2[a0 + i]]; bool id = is_inf1(P) || is_inf2(Q); idents += id; shape += id ? "a0" : "a"; want = w.gtmul(want, single(P, Q)); }
         for (size_t i = 0; i < np; i++) { void* P = g1[(size_t) p_g1[p0 + i]]; void* Q = prep_src[(size_t) p_pr[p0 + i]]; bool id = is_inf1(P) || is_inf2(Q); idents += id; shape += id ? "p0" : "p"; want = w.gtmul(want, single(P, Q)); }
